@@ -68,6 +68,15 @@ func onErr(err error, res chan model.QueryRangeOutput) {
 	}
 }
 
+// drain keeps receiving after the encoder gave up on an error entry: the stage that is
+// still sending (e.g. ResponseOptimizerPlanner flushing its groups) must not stay blocked forever.
+func drain(out chan []shared.LogEntry) {
+	go func() {
+		for range out {
+		}
+	}()
+}
+
 // func (q *QueryRangeService) exportStreamsValue(out chan []shared.LogEntry,
 //
 //		res chan model.QueryRangeOutput) {
@@ -153,6 +162,7 @@ func (q *QueryRangeService) exportStreamsValue(out chan []shared.LogEntry,
 			}
 			if e.Err != nil {
 				onErr(e.Err, res)
+				drain(out)
 				return
 			}
 			if lastFp != e.Fingerprint {
@@ -252,6 +262,7 @@ func (q *QueryRangeService) QueryRange(ctx context.Context, query string, fromNs
 			for _, e := range entries {
 				if e.Err != nil && e.Err != io.EOF {
 					onErr(e.Err, res)
+					drain(out)
 					return
 				}
 				if e.Err == io.EOF {
@@ -465,6 +476,7 @@ func (q *QueryRangeService) QueryInstant(ctx context.Context, query string, time
 			for _, e := range entries {
 				if e.Err != nil && e.Err != io.EOF {
 					onErr(e.Err, res)
+					drain(out)
 					return
 				}
 				if e.Err == io.EOF {
@@ -600,6 +612,7 @@ func (q *QueryRangeService) Tail(ctx context.Context, query string) (model.IWatc
 					}
 					if e.Err != nil {
 						onErr(e.Err, res.GetRes())
+						drain(out)
 						return
 					}
 					if lastFp != e.Fingerprint {
